@@ -1249,6 +1249,10 @@ func cmdReplay(args []string) int {
 		return 2
 	}
 	fmt.Printf("replay: verdict=%s class=%s oracle=%s sig=%s\n%s\n", res.Verdict, res.Class, res.Oracle, res.Sig, res.Msg)
+	if trace {
+		cb, _ := json.Marshal(res.Counters)
+		fmt.Println("counters:", string(cb))
+	}
 	if trace && res.Sample != nil {
 		b, _ := json.MarshalIndent(res.Sample, "", " ")
 		fmt.Println(string(b))
